@@ -625,7 +625,8 @@ fn check_history(ops: &[Op], obs: &mut Obs) -> CheckResult {
     let r = block_on(store.exists(&e.id));
     vensure!(
       obs,
-      matches!(r, Ok(x) if x == e.live),
+      // a dead id "does not exist": `Ok(false)` or an error say so alike; a live one has to be reported as existing
+      if e.live { matches!(r, Ok(true)) } else { !matches!(r, Ok(true)) },
       "final-exists-disagrees",
       "after the history exists({}) = {:?}, the model says live = {}",
       e.id,
